@@ -36,3 +36,28 @@ def from_reference(path=None):
         setattr(T, n, bytes([ref["tags"][n]]))
     T.IMM_LO, T.IMM_HI, T.IMM_OFF = ref["imm_lo"], ref["imm_hi"], ref["imm_off"]
     return T
+
+
+class Consts(object):
+    def __repr__(self):
+        return "Consts(%s)" % self.origin
+
+
+def frame_consts_from_module(channel):
+    C = Consts()
+    C.origin = "reflected from rpyc.core.channel.Channel"
+    C.THRESHOLD = channel.Channel.COMPRESSION_THRESHOLD
+    C.LEVEL = channel.Channel.COMPRESSION_LEVEL
+    C.FLUSHER = channel.Channel.FLUSHER
+    return C
+
+
+def frame_consts_from_reference(channel, path=None):
+    path = path or os.path.join(os.path.dirname(os.path.dirname(os.path.abspath(__file__))), "spec", "wire_5x.json")
+    ref = json.load(open(path))
+    C = Consts()
+    C.origin = "frozen reference spec/wire_5x.json"
+    C.THRESHOLD = ref["frame"]["compression_threshold"]
+    C.LEVEL = channel.Channel.COMPRESSION_LEVEL      # not part of the format
+    C.FLUSHER = bytes(ref["frame"]["flusher"])
+    return C
